@@ -843,10 +843,9 @@ func buildStubs() map[string]stubFn {
 					out[i] = tc.Const(8, uint64(ch))
 					continue
 				}
-				// symbolic byte: assume ASCII (stated bound)
-				if !ex.branch(tc.Cmp(OUlt, b, tc.Const(8, 0x80))) {
-					panic(pathEnd{"bound", "case mapping of symbolic non-ASCII byte (outside the bound)"})
-				}
+				// symbolic byte: assumed ASCII (stated bound: keyword-like arguments are ASCII)
+				ex.addAssume(tc.Cmp(OUlt, b, tc.Const(8, 0x80)))
+				ex.note("assumption: symbolic bytes passed to strings.ToUpper/ToLower are ASCII")
 				if upper {
 					isLower := tc.And(tc.Cmp(OUle, tc.Const(8, 'a'), b), tc.Cmp(OUle, b, tc.Const(8, 'z')))
 					out[i] = tc.Ite(isLower, tc.Bin(OSub, b, tc.Const(8, 32)), b)
@@ -1084,27 +1083,58 @@ func buildStubs() map[string]stubFn {
 			}
 			return Tuple{tc.Const(64, v), ex.nilError()}
 		}
-		// symbolic text: arbitrary outcome {ok with arbitrary in-range value, syntax error, range error}
-		switch ex.choose(3) {
-		case 0:
-			v := ex.newEnvVar("parsed", 64)
-			if signed && bitSize < 64 {
-				ex.addAssume(tc.And(tc.Cmp(OSle, ex.i64(int64(-1)<<uint(bitSize-1)), v), tc.Cmp(OSle, v, ex.i64(int64(1)<<uint(bitSize-1)-1))))
-			} else if !signed && bitSize < 64 {
-				ex.addAssume(tc.Cmp(OUle, v, tc.Const(64, mask(bitSize))))
-			}
-			ex.recordConcreteInput("env", "parse:ok", 0)
-			return Tuple{v, ex.nilError()}
-		case 1:
-			ex.recordConcreteInput("env", "parse:syntax", 1)
+		// symbolic text of concrete length: exact decimal model (optional sign for signed parses; every
+		// other byte must be a digit), no digit separators (base 10), at most 18 characters so that the
+		// 64-bit accumulation cannot overflow.
+		n := len(s.b)
+		if n == 0 {
 			return Tuple{ex.i64(0), errT("syntax")}
-		default:
-			ex.recordConcreteInput("env", "parse:range", 2)
-			if signed {
-				return Tuple{ex.i64(int64(1)<<uint(bitSize-1) - 1), errT("range")}
-			}
-			return Tuple{tc.Const(64, mask(bitSize)), errT("range")}
 		}
+		if n > 18 {
+			panic(pathEnd{"bound", "symbolic number text longer than 18 characters"})
+		}
+		digits := s.b
+		neg := tc.False
+		if signed {
+			isMinus := tc.Eq(s.b[0], ex.u8('-'))
+			isPlus := tc.Eq(s.b[0], ex.u8('+'))
+			if ex.branch(tc.Or(isMinus, isPlus)) {
+				neg = isMinus
+				digits = s.b[1:]
+				if len(digits) == 0 {
+					return Tuple{ex.i64(0), errT("syntax")}
+				}
+			}
+		}
+		allDigits := tc.True
+		for _, b := range digits {
+			allDigits = tc.And(allDigits, tc.And(tc.Cmp(OUle, ex.u8('0'), b), tc.Cmp(OUle, b, ex.u8('9'))))
+		}
+		if !ex.branch(allDigits) {
+			return Tuple{ex.i64(0), errT("syntax")}
+		}
+		acc := ex.i64(0)
+		for _, b := range digits {
+			d := tc.Zext(64, tc.Bin(OSub, b, ex.u8('0')))
+			acc = tc.Bin(OAdd, tc.Bin(OMul, acc, ex.i64(10)), d)
+		}
+		val := tc.Ite(neg, tc.Neg(acc), acc)
+		// range by bit size (cannot exceed 64 bits with <= 18 digits)
+		if bitSize < 64 {
+			var fits *Term
+			if signed {
+				fits = tc.And(tc.Cmp(OSle, ex.i64(int64(-1)<<uint(bitSize-1)), val), tc.Cmp(OSle, val, ex.i64(int64(1)<<uint(bitSize-1)-1)))
+			} else {
+				fits = tc.Cmp(OUle, val, tc.Const(64, mask(bitSize)))
+			}
+			if !ex.branch(fits) {
+				if signed {
+					return Tuple{tc.Ite(neg, ex.i64(int64(-1)<<uint(bitSize-1)), ex.i64(int64(1)<<uint(bitSize-1)-1)), errT("range")}
+				}
+				return Tuple{tc.Const(64, mask(bitSize)), errT("range")}
+			}
+		}
+		return Tuple{val, ex.nilError()}
 	}
 	m["strconv.ParseInt"] = func(ex *Exec, c *frame, fn *ssa.Function, a []Value) Value {
 		base := a[1].(*Term)
@@ -1153,12 +1183,31 @@ func buildStubs() map[string]stubFn {
 			}
 			return Tuple{ex.tc.FConst(WF64, v), ex.nilError()}
 		}
-		if ex.choose(2) == 0 {
-			ex.recordConcreteInput("env", "parsefloat:ok", 0)
-			return Tuple{ex.newEnvVar("parsedf", WF64), ex.nilError()}
+		// symbolic text: all-digit strings are integer-valued (exact); anything else is either a syntax
+		// error or parses to an arbitrary float (formats such as 1.5, 1e3, inf are not modelled byte by byte)
+		tc := ex.tc
+		if len(s.b) == 0 {
+			return Tuple{tc.FConst(WF64, 0), ex.errorValue("strconv.ParseFloat: invalid syntax")}
 		}
-		ex.recordConcreteInput("env", "parsefloat:err", 1)
-		return Tuple{ex.tc.FConst(WF64, 0), ex.errorValue("strconv.ParseFloat: invalid syntax")}
+		allDigits := tc.True
+		for _, b := range s.b {
+			allDigits = tc.And(allDigits, tc.And(tc.Cmp(OUle, ex.u8('0'), b), tc.Cmp(OUle, b, ex.u8('9'))))
+		}
+		if len(s.b) <= 15 && ex.branch(allDigits) {
+			acc := ex.i64(0)
+			for _, b := range s.b {
+				d := tc.Zext(64, tc.Bin(OSub, b, ex.u8('0')))
+				acc = tc.Bin(OAdd, tc.Bin(OMul, acc, ex.i64(10)), d)
+			}
+			return Tuple{tc.FFromInt(WF64, acc, true), ex.nilError()}
+		}
+		if ex.choose(2) == 0 {
+			ex.recordConcreteInput("env", "parsefloat:err", 0)
+			return Tuple{tc.FConst(WF64, 0), ex.errorValue("strconv.ParseFloat: invalid syntax")}
+		}
+		ex.recordConcreteInput("env", "parsefloat:ok-nondigit", 1)
+		ex.note("ParseFloat of a symbolic non-digit text modelled as an arbitrary value (replay may not reproduce)")
+		return Tuple{ex.newEnvVar("parsedf", WF64), ex.nilError()}
 	}
 	m["strconv.FormatFloat"] = func(ex *Exec, c *frame, fn *ssa.Function, a []Value) Value {
 		t := a[0].(*Term)
@@ -1472,6 +1521,88 @@ func buildStubs() map[string]stubFn {
 		store(dp, val)
 		return ex.nilError()
 	}
+
+	// ---- unsafe string<->bytes helpers of olric (same bytes; the aliasing itself is not modelled)
+	m[olricPath+"/internal/util.BytesToString"] = func(ex *Exec, c *frame, fn *ssa.Function, a []Value) Value {
+		sl, _ := a[0].(*SliceV)
+		if sl.isNil() {
+			return ex.emptyStr
+		}
+		return &StrV{b: ex.bytesOf(sl), num: sl.num}
+	}
+	m[olricPath+"/internal/util.StringToBytes"] = func(ex *Exec, c *frame, fn *ssa.Function, a []Value) Value {
+		st := a[0].(*StrV)
+		r := ex.mkByteSlice(st.b)
+		r.num = st.num
+		return r
+	}
+
+	// ---- strings.Builder (fields: addr *Builder, buf []byte)
+	sbBuf := func(ex *Exec, v Value) *Value {
+		st := ptrStruct(v)
+		if st == nil {
+			ex.throw("nil strings.Builder")
+		}
+		return &st[1]
+	}
+	m["(*strings.Builder).Write"] = func(ex *Exec, c *frame, fn *ssa.Function, a []Value) Value {
+		p := sbBuf(ex, a[0])
+		ex.effect()
+		src, _ := a[1].(*SliceV)
+		n := int64(0)
+		if !src.isNil() {
+			n = ex.sliceLen(src)
+		}
+		cur, _ := (*p).(*SliceV)
+		*p = ex.appendOp(cur, src)
+		return Tuple{ex.i64(n), ex.nilError()}
+	}
+	m["(*strings.Builder).WriteString"] = func(ex *Exec, c *frame, fn *ssa.Function, a []Value) Value {
+		p := sbBuf(ex, a[0])
+		ex.effect()
+		cur, _ := (*p).(*SliceV)
+		*p = ex.appendOp(cur, a[1])
+		return Tuple{ex.i64(int64(len(a[1].(*StrV).b))), ex.nilError()}
+	}
+	m["(*strings.Builder).WriteByte"] = func(ex *Exec, c *frame, fn *ssa.Function, a []Value) Value {
+		p := sbBuf(ex, a[0])
+		ex.effect()
+		cur, _ := (*p).(*SliceV)
+		*p = ex.appendOp(cur, &StrV{b: []*Term{a[1].(*Term)}})
+		return ex.nilError()
+	}
+	m["(*strings.Builder).WriteRune"] = func(ex *Exec, c *frame, fn *ssa.Function, a []Value) Value {
+		p := sbBuf(ex, a[0])
+		r := a[1].(*Term)
+		if !r.IsConst() {
+			panic(engineErr("Builder.WriteRune symbolic"))
+		}
+		cur, _ := (*p).(*SliceV)
+		str := string(rune(r.SVal()))
+		*p = ex.appendOp(cur, ex.mkStr(str))
+		return Tuple{ex.i64(int64(len(str))), ex.nilError()}
+	}
+	m["(*strings.Builder).String"] = func(ex *Exec, c *frame, fn *ssa.Function, a []Value) Value {
+		p := sbBuf(ex, a[0])
+		cur, _ := (*p).(*SliceV)
+		if cur.isNil() {
+			return ex.emptyStr
+		}
+		return &StrV{b: ex.bytesOf(cur)}
+	}
+	m["(*strings.Builder).Len"] = func(ex *Exec, c *frame, fn *ssa.Function, a []Value) Value {
+		p := sbBuf(ex, a[0])
+		cur, _ := (*p).(*SliceV)
+		if cur.isNil() {
+			return ex.i64(0)
+		}
+		return cur.len
+	}
+	m["(*strings.Builder).Reset"] = func(ex *Exec, c *frame, fn *ssa.Function, a []Value) Value {
+		*sbBuf(ex, a[0]) = (*SliceV)(nil)
+		return nil
+	}
+	m["(*strings.Builder).Grow"] = stubNoop
 
 	// ---- regexp: abstract predicate (one arbitrary Bool per distinct concrete key per expression)
 	m["regexp.Compile"] = func(ex *Exec, c *frame, fn *ssa.Function, a []Value) Value {
